@@ -294,7 +294,7 @@ type caseT struct {
 	// Interfere: between the repetitions of the case another call is made on the same Validator (the case's own,
 	// the shared one, or the package-level default) for the same type with other per-call options — 1 WithMessageFunc
 	// for the common tags, 2 WithMessages, 3 WithFieldNameMapper, 4 a redactor that covers everything, 5 other limits,
-	// 6 all of them. Nothing of that call may show in the next one: the repetitions (messages and meta included)
+	// 6 all of them, 7 a per-call JSON schema under StrategyAuto. Nothing of that call may show in the next one: the repetitions (messages and meta included)
 	// must stay identical. With variants 1 and 2 the Validator's base configuration then also carries a message
 	// function and a message for a tag the generated rules do not use.
 	Interfere int `json:",omitempty"`
@@ -314,8 +314,12 @@ type caseT struct {
 	// Applies where the case's own limit is 0.
 	Limits int `json:",omitempty"`
 	// Custom: a WithCustomValidator function is passed — 1 it accepts the value; 2..4 it returns a *validation.Error
-	// with Custom-1 field errors (deliberately unsorted), which ends the call before any strategy runs
+	// with Custom-1 field errors (deliberately unsorted), which ends the call before any strategy runs; 5..7 it returns
+	// a validation.Error VALUE with Custom-3 field errors (wrapped as one generic error)
 	Custom int `json:",omitempty"`
+	// Mapper: the call passes WithFieldNameMapper (partial mode only: there the reported paths are the JSON paths of
+	// the presence map, and the redactor is asked about those)
+	Mapper bool `json:",omitempty"`
 }
 
 func customErrs(n int) [][2]string {
@@ -866,15 +870,18 @@ func genCase(r *hx.Rand, tier string) caseT {
 	if r.Chance(1, 5) {
 		c.Limits = r.Range(1, 2)
 	}
+	if c.Mode == 0 && r.Chance(1, 6) {
+		c.Mapper = true
+	}
 	if !c.ViaApp && c.Variant == 0 && r.Chance(1, 8) {
-		c.Custom = r.Range(1, 4)
+		c.Custom = r.Range(1, 7)
 	}
 	if r.Chance(1, 150) {
 		c.Load = 1001
 	}
 	// other calls with other per-call options on the same Validator between the repetitions
 	if r.Chance(1, 4) {
-		c.Interfere = r.Range(1, 6)
+		c.Interfere = r.Range(1, 7)
 	}
 	return c
 }
@@ -1426,6 +1433,9 @@ func interferingOptions(kind int) []validation.Option {
 	if kind == 5 || kind == 6 {
 		out = append(out, validation.WithMaxErrors(1), validation.WithMaxFields(1))
 	}
+	if kind == 7 {
+		out = append(out, validation.WithCustomSchema("c05-interfering", `{"type":"object"}`))
+	}
 	return out
 }
 
@@ -1441,7 +1451,7 @@ func interfere(c *caseT, rt reflect.Type) {
 		opts = append(opts, validation.WithRunAll(true))
 	case c.Mode == 3:
 		opts = append(opts, validation.WithStrategy(validation.StrategyInterface))
-	case !c.Auto:
+	case !c.Auto && c.Interfere != 7:
 		opts = append(opts, validation.WithStrategy(validation.StrategyTags))
 	}
 	ctx := context.Background()
@@ -1551,8 +1561,15 @@ func observe(c *caseT, rt reflect.Type, secrets []string) (o obsT) {
 	if rd := redactor(c); rd != nil {
 		opts = append(opts, validation.WithRedactor(rd))
 	}
+	if c.Mapper && c.Mode == 0 {
+		opts = append(opts, validation.WithFieldNameMapper(func(s string) string { return "Label(" + strings.ToUpper(s) + ")" }))
+	}
 	if c.Custom > 0 {
 		n := c.Custom - 1
+		byValue := c.Custom >= 5
+		if byValue {
+			n = c.Custom - 3 // 2..4 field errors, returned as a validation.Error VALUE
+		}
 		opts = append(opts, validation.WithCustomValidator(func(any) error {
 			if n == 0 {
 				return nil
@@ -1560,6 +1577,9 @@ func observe(c *caseT, rt reflect.Type, secrets []string) (o obsT) {
 			var e validation.Error
 			for _, f := range customErrs(n) {
 				e.Add(f[0], f[1], "custom", nil)
+			}
+			if byValue {
+				return e
 			}
 			return &e
 		}))
@@ -2110,7 +2130,10 @@ func emit(id string, c caseT, st *hx.Stats) string {
 		}
 	}
 	l.Tok("C").Nat(strat).Bool(c.Mode == 2).Bool(hasIface).Bool(tagsApply)
-	if c.Custom >= 2 {
+	if c.Custom >= 5 {
+		// an Error returned by value is not a *validation.Error: coerceToValidationErrors wraps it as one generic error
+		l.Bool(true).Nat(1).Str("").Str("validation_error")
+	} else if c.Custom >= 2 {
 		ce := customErrs(c.Custom - 1)
 		l.Bool(true).Nat(len(ce))
 		for _, f := range ce {
@@ -2178,8 +2201,11 @@ func emit(id string, c caseT, st *hx.Stats) string {
 		if c.Limits > 0 && (c.MaxErrors == 0 || c.MaxFields == 0) {
 			st.Count("no_limit_spelled_" + []string{"", "explicit_zero", "negative_maxerrors"}[c.Limits])
 		}
+		if c.Mapper && c.Mode == 0 {
+			st.Count("partial_with_field_name_mapper")
+		}
 		if c.Custom > 0 {
-			st.Count("custom_validator_" + []string{"", "accepts", "rejects", "rejects", "rejects"}[c.Custom])
+			st.Count("custom_validator_" + []string{"", "accepts", "rejects", "rejects", "rejects", "rejects_by_value", "rejects_by_value", "rejects_by_value"}[c.Custom])
 		}
 		if hasIface && c.Auto && c.Mode <= 1 {
 			st.Count("auto_strategy_on_a_type_with_validate_method")
@@ -2191,7 +2217,7 @@ func emit(id string, c caseT, st *hx.Stats) string {
 			st.Count("bulk_body_over_10000_paths")
 		}
 		if c.Interfere > 0 {
-			st.Count("interfering_call_between_repetitions_" + []string{"", "messagefunc", "messages", "fieldnamemapper", "redactor", "limits", "all"}[c.Interfere])
+			st.Count("interfering_call_between_repetitions_" + []string{"", "messagefunc", "messages", "fieldnamemapper", "redactor", "limits", "all", "customschema"}[c.Interfere])
 		}
 		if c.Variant != 0 {
 			st.Count("variant_" + []string{"", "base_options", "base_options_overridden", "validate_with_partial_option", "pointer_to_pointer"}[c.Variant])
@@ -2343,6 +2369,9 @@ func fixedCases() []caseT {
 		{Body: `{"id":"x","kind":"q7_wv\t","name":"n","token":"q8_wvxkjq\""}`, Named: "FullE", Mode: 1, Redact: []string{"kind", "token"}},                                                                                 // a redacted value that quoting escapes
 		{Body: `{"user":{"name":"xy"},"user-id":1,"a":"q"}`, T: userT, Ctx: 2},               // a cancelled context changes nothing
 		{Body: `{"user":{"name":"xy"},"user-id":1,"a":"q"}`, T: userT, Ctx: 3, ViaApp: true}, // … nor does one past its deadline, through the app layer
+		{Body: `{"user":{"name":"xy"}}`, T: &TypeT{Fields: []FieldT{{JSON: "user", Kind: "struct", Sub: &TypeT{Fields: []FieldT{{JSON: "name", Kind: "string", Tag: "required,min=3"}}}}}}, Mode: 1, Auto: true, Interfere: 7}, // nested-only tags under Auto, after a call with a per-call schema
+		{Body: `{"user":{"name":"xy"},"a":"q"}`, T: userT, Mapper: true, Redact: []string{"a"}},                                                                                                                      // mapper + redactor in partial mode
+		{Body: `{"email":"x","age":9}`, Named: "FullA", Mode: 1, MaxErrors: 2, Custom: 7},                                                                                                                          // custom validator returning an Error value
 		{Body: `{"user":{"name":"xy"},"a":"q"}`, T: userT, Load: 1001},                       // 1001 other validations in flight on the same Validator
 		{Body: `{"email":"x","age":9,"nerr":1}`, Named: "FullV", Mode: 2, Load: 1001, Pkg: true},
 		{Body: `{"1":"abc","2":{"3":"x"}}`, T: &TypeT{Fields: []FieldT{{JSON: "1", Kind: "string", Tag: "email"}, {JSON: "2", Kind: "struct", Sub: &TypeT{Fields: []FieldT{{JSON: "3", Kind: "string", Tag: "min=2"}}}}}}}, // K05d
